@@ -401,6 +401,7 @@ def c07_scenario(ctx, checks, kind, sample, data):
         o1 = kind.open(io.BytesIO(d1))
         c1 = KM.canon_mem(kind, o1)
         unk1 = raw_unknown(kind, o1)
+        b = io.BytesIO(d1); o.save(b); d2_same = b.getvalue()      # the SAME object saves again
         b = io.BytesIO(d1); o1.save(b); d2 = b.getvalue()
         o2 = kind.open(io.BytesIO(d2))
         b = io.BytesIO(d2); o2.save(b); d3 = b.getvalue()
@@ -429,6 +430,8 @@ def c07_scenario(ctx, checks, kind, sample, data):
             v("tag data mutagen cannot interpret lost by an unmodified load+save", {"lost": repr(lost)[:300]})
     if d2 != d1:
         v("second save changes the file")
+    elif d2_same != d1:
+        v("second save through the same object changes the file")
     if d3 != d2:
         v("third save changes the file")
 
@@ -504,7 +507,10 @@ def c07_order(ctx, checks, rng):
         frames = [TIT2(encoding=3, text=["t" * rng.randrange(1, 9)]), TPE1(encoding=3, text=["a" * rng.randrange(1, 9)]),
                   TALB(encoding=1, text=["b"]), TRCK(encoding=0, text=["1/2"]),
                   TXXX(encoding=3, desc="d1", text=["x"]), TXXX(encoding=3, desc="d2", text=["x"]),
-                  COMM(encoding=3, lang="eng", desc="", text=["c"]), APIC(encoding=0, mime="i", type=3, desc="p", data=b"12345")]
+                  COMM(encoding=3, lang="eng", desc="", text=["c"]), APIC(encoding=0, mime="i", type=3, desc="p", data=b"12345"),
+                  COMM(encoding=3, lang="deu", desc="zeta", text=["zeta comment"]), COMM(encoding=3, lang="eng", desc="alpha", text=["alpha comment"])]
+        if rep % 3 == 0:
+            frames = [f for f in frames if not (type(f).__name__ == "COMM" and f.desc == "")]      # no plain COMM: the ID3v1 comment must still be chosen deterministically
         frames = frames[:rng.randrange(2, len(frames) + 1)]
         outs = []
         for perm in range(3):
@@ -512,7 +518,7 @@ def c07_order(ctx, checks, rng):
             t = ID3()
             for f in fs:
                 t.add(copy.deepcopy(f))
-            b = io.BytesIO(); t.save(b); outs.append(b.getvalue())
+            b = io.BytesIO(); t.save(b, v1=(2 if rep % 2 else 1)); outs.append(b.getvalue())
         ctx.count("c07:order-id3")
         if len(set(outs)) != 1:
             ctx.violation("oracle", "C07 ID3: bytes written depend on frame insertion order",
